@@ -63,7 +63,7 @@ add("C04", "exploration",
 add("C05", "exploration",
     "commit-boundary monitor (dependent's new position vs every referenced integration's position in the same snapshot) + bounded reference-projection oracle (required ⊆ rows ⊆ allowed) over adversarial task orders",
     "Dependency graphs from filter references on event inputs and block fields (1–3 referenced integrations, contains / !contains, and/or) are stepped in adversarial orders: dependent first, only some references started, references lagging or far ahead, a reference stepping between the dependent's two transactions (hook). In the snapshot of every commit of the dependent each referenced integration must have a position >= the dependent's; while a reference has none the dependent must not change; final rows lie between the rows required by data at or below the row's block and the rows allowed by the final referenced tables.",
-    PIPE_NOTE + " Growth-only chains; all integrations of a graph on one source.", "DESIGN.md §7 C05")
+    PIPE_NOTE + " Graphs also hold a second referrer of the same integration or a second-level dependent, two sources of one chain (dependency judged per source) and reorganisations (position monitor only; content oracle on growth-only chains).", "DESIGN.md §7 C05")
 
 add("C14", "exploration",
     "ground-truth cell comparison on a chain whose every field value is distinct and non-zero, over all singles and pairs of selectable field names per indexing mode (exhaustive) and random larger sets",
@@ -73,7 +73,7 @@ add("C14", "exploration",
 add("C07", "exploration",
     "faithful-attachment oracle (written from the statement, independent of the client) over every single mutation of a correct response set, for every reachable data plan × limit 1..6, through uncached and caching clients; hostile Hash/Latest/poller scenarios one per case",
     "For each of the 17 reachable plans and limits 1..6 the correct exchanges of one Get are recorded from the simulated node and replayed under every single mutation (48 kinds: drop/duplicate/reorder/renumber/null/error member/broken parent/changed hash/item moved out of range or to another block or tx/changed blockHash/wrong JSON types/truncation at k/16/non-2xx with intact body/garbage); thorough adds sampled pairs. Get must fail when the mutated set is inconsistent in one of the statement's ways and otherwise return exactly the attachment the mutated data describe.",
-    "Trusted: refmodel/attach.go (oracle), simnode rendering. Undetectable omissions (a log simply absent from eth_getLogs) are not violations.", "DESIGN.md §7 C07")
+    "Trusted: refmodel/attach.go (oracle), simnode rendering. Task level: for integrations with concurrency 2..4 every partition request whose first block is not the step's first block is answered once with a changed parent hash; the step must fail and write nothing. Undetectable omissions (a log simply absent from eth_getLogs) are not violations.", "DESIGN.md §7 C07")
 
 add("C08", "exploration",
     "ground-truth and uncached-client equivalence per call + fetch counting from the node's request log + announced-pair membership for Latest; sequential and concurrent request mixes with injected fetch failures; poller at 2 ms and 1 h",
@@ -81,14 +81,14 @@ add("C08", "exploration",
     "Trusted: simnode request log as the record of what the source was asked and what it announced. Minimum observations (cache hits, evictions by both rules, poller resets) are enforced.", "DESIGN.md §7 C08")
 
 add("C18", "exploration",
-    "Go race detector (-race build of harness + shovel) over free-running production-wired tasks: real goroutine concurrency, head poller at 2 ms with injected failures, delays at both wire boundaries, head growth and reorgs in flight; reports de-duplicated by innermost shovel frame pair",
-    "Family A: one task with concurrency 2..8; family B: 2–4 tasks on one source client with overlapping ranges and different data plans so cached segments are shared while logs/receipts/traces are attached. Runner goroutines call Converge until every pair reaches a head that keeps moving; any race report whose two stacks both hold a shovel frame is a violation. Minimum observations (Converge executions, in-flight requests >= 2, poller requests/failures, reorgs) are enforced.",
+    "Go race detector (-race build of harness + shovel) over free-running production-wired tasks: real goroutine concurrency, head poller at 2 ms with injected failures, delays at both wire boundaries, head growth and reorgs in flight; reports de-duplicated by innermost shovel frame pair; plus a crash monitor over fresh plain-build child processes for first-use initialisation that the JSON dependency hides from the race detector (its unsynchronised decoder publication is stretched by a build overlay)",
+    "First use: fresh child processes whose 2–16 goroutines perform the process's first block/head/hash requests at the same moment must not crash. Family C: event integrations attached to two sources, so two tasks built from one configuration decode and insert at once. Family A: one task with concurrency 2..8; family B: 2–4 tasks on one source client with overlapping ranges and different data plans so cached segments are shared while logs/receipts/traces are attached. Runner goroutines call Converge until every pair reaches a head that keeps moving; any race report whose two stacks both hold a shovel frame is a violation. Minimum observations (Converge executions, in-flight requests >= 2, poller requests/failures, reorgs) are enforced.",
     "The race detector sees only interleavings that occurred; a clean run is not race freedom. Trusted: Go race runtime; the harness's own shared state is mutex/atomic-protected (a report without two shovel stacks is inconclusive).", "DESIGN.md §7 C18")
 
 add("C20", "exploration",
     "online checker over the hook event log of the real Manager (run/generation, runner and step events under one global sequence) + reference merge model of file and database configuration; restarts at random instants and at hook points",
     "File/database configuration mixes (name clashes with different contents, disabled entries, several sources per integration, unknown source in file or database) start the real Manager; the loaded tasks (source, integration, chain id, start, stop, batch, concurrency) are compared with an independent merge model; 1–4 restarts are issued one at a time at random instants, while a runner sits between its two transactions, right after the previous start-up signal, and after storing new integrations; the event log must never show two live runners or overlapping steps for one pair nor any event of a previous generation after Restart returned.",
-    "Trusted: the build-tag-guarded event hooks (sequence numbers from one atomic counter); fakepg/simnode as in C01. Restarts are issued one at a time. Wall-clock only in watchdogs.", "DESIGN.md §7 C20")
+    "Trusted: the build-tag-guarded event hooks (sequence numbers from one atomic counter); fakepg/simnode as in C01. Restarts are issued one at a time, except the overlapping-restart mode (a second store + restart lands between 'tasks loaded' and the start-up signal of the first). One process-level case runs the real cmd/shovel binary with an unknown source reference (database-only and file): after reporting the error the process must terminate non-zero. Wall-clock only in watchdogs.", "DESIGN.md §7 C20")
 
 add("C11", "exploration",
     "reference projection (values → typed cells, computed from the simulated chain and the independent ABI model) vs rows handed to COPY: direct Integration.Insert through the production destination with a recording connection (volume) + full pipeline every 41st case",
